@@ -286,6 +286,8 @@ class SX:
             content = st.getcell(v.cell)
             if isinstance(content, dict):
                 return z3.BoolVal(True)  # plain objects are truthy
+            if isinstance(content, tuple):
+                return z3.BoolVal(False)  # untyped empty list/set/dict literal
             return self.truthy(content, st)
         if isinstance(v, Conc):
             return z3.BoolVal(bool(v.v))
@@ -310,10 +312,9 @@ class SX:
         if isinstance(t, V.Tuple):
             return z3.BoolVal(len(t.items) > 0)
         if isinstance(t, V.Set):
-            x = z3.Const(fresh_name("sx"), t.elem.sort())
             if isinstance(t.elem, V._Bool):
                 return z3.Or(z3.Select(v.term, True), z3.Select(v.term, False))
-            return z3.Exists([x], z3.Select(v.term, x))
+            return self.set_nonempty(v, st)
         if isinstance(t, V.Dict):
             x = z3.Const(fresh_name("dx"), t.k.sort())
             return z3.Exists([x], z3.Select(t.dom(v.term), x))
@@ -324,6 +325,25 @@ class SX:
         if isinstance(t, V.Opaque):
             return z3.BoolVal(True)
         self.unsupported("truthiness of %r" % (t,))
+
+    def set_ne_fun(self, t):
+        return self.reg.ufun("set_nonempty_" + V._sname(t), [t.sort()], z3.BoolSort())
+
+    def set_nonempty(self, v, st):
+        """quantifier-free encoding of `bool(set)`: an uninterpreted predicate tied to membership by a witness
+        function (ne(s) -> s[wit(s)]) and, at every membership test, by s[x] -> ne(s)"""
+        t = v.ty
+        term = z3.simplify(v.term)
+        if z3.is_const_array(term):
+            return z3.BoolVal(z3.is_true(term.arg(0)))
+        if z3.is_store(term) and z3.is_true(term.arg(2)):
+            return z3.BoolVal(True)
+        ne = self.set_ne_fun(t)
+        wit = self.reg.ufun("set_witness_" + V._sname(t), [t.sort()], t.elem.sort())
+        if st is not None:
+            st.assume(z3.Implies(ne(v.term), z3.Select(v.term, wit(v.term))))
+            st.assume(z3.Implies(z3.Select(v.term, wit(v.term)), ne(v.term)))
+        return ne(v.term)
 
     def deref(self, v, st):
         """Ref to a mutable container -> its current immutable Val"""
@@ -429,6 +449,8 @@ class SX:
             return V.mk_bytes(x)
         if isinstance(x, tuple) and all(isinstance(i, Val) for i in x):
             items = [self.lift(i) for i in x]
+            if any(isinstance(i, (Ref, Func, Conc)) or i.ty is None or isinstance(i.ty, V._None) for i in items):
+                self.unsupported("cannot lift a tuple holding references")
             t = V.Tuple(*[i.ty for i in items])
             return Val(t, t.mk(*[i.term for i in items]))
         self.unsupported("cannot lift concrete %r" % (x,))
@@ -546,7 +568,7 @@ class SX:
         lifted = []
         ok = True
         for v in vals:
-            v2 = self.deref(v, st) if isinstance(v, Ref) and not isinstance(st.getcell(v.cell), dict) else v
+            v2 = v  # references to mutable containers keep their identity inside a tuple
             if isinstance(v2, Conc):
                 try:
                     v2 = self.lift(v2)
@@ -952,6 +974,11 @@ class SX:
     def ev_Call(self, node, st):
         if any(isinstance(a, ast.Starred) for a in node.args) or any(k.arg is None for k in node.keywords):
             return self.B.star_call(self, node, st)
+        if (isinstance(node.func, ast.Name) and node.func.id in ("any", "all") and len(node.args) == 1
+                and isinstance(node.args[0], (ast.GeneratorExp, ast.ListComp)) and len(node.args[0].generators) == 1):
+            r = self.B.any_all_comprehension(self, node, st)
+            if r is not None:
+                return r
         # spec-only forms: old(x), forall/exists with lambda
         if isinstance(node.func, ast.Name) and node.func.id in self.B.SPECIAL_FORMS:
             return self.B.SPECIAL_FORMS[node.func.id](self, node, st)
@@ -975,6 +1002,9 @@ class SX:
             return rs
         if isinstance(f, Conc) and callable(getattr(f.v, "__pyvc_call__", None)):
             return f.v.__pyvc_call__(self, args, kwargs, st, node)
+        m = self.reg.call_value(self, f, args, kwargs, st, node)
+        if m is not None:
+            return m
         self.unsupported("call of non-callable %r" % (f,), node)
 
     # ------------------------------------------------------------------ statements
@@ -1000,12 +1030,14 @@ class SX:
         sh = getattr(self.unit, "stmt_hints", None)
         if sh and not self.spec_mode and isinstance(stmt, (ast.Expr, ast.Assign, ast.AugAssign)):
             src = ast.unparse(stmt)
-            for (prefix, snaps, lemmas) in sh:
+            for entry in sh:
+                prefix, snaps, lemmas = entry[0], entry[1], entry[2]
+                asserts = entry[3] if len(entry) > 3 else ()
                 if src.startswith(prefix):
-                    return self._ex_with_hints(m, stmt, st, snaps, lemmas)
+                    return self._ex_with_hints(m, stmt, st, snaps, lemmas, asserts)
         return m(stmt, st)
 
-    def _ex_with_hints(self, m, stmt, st, snaps, lemmas):
+    def _ex_with_hints(self, m, stmt, st, snaps, lemmas, asserts=()):
         """ghost code keyed by statement text: snapshot values before, assume proved-lemma instances after"""
         pre = {}
         self.spec_mode += 1
@@ -1020,6 +1052,10 @@ class SX:
             if o.kind == "normal":
                 for e in lemmas:
                     o.st.assume(self.eval_spec(e, o.st, pre))
+                # visible-state assertions: what another thread can observe right after this statement
+                for (aname, e) in asserts:
+                    self.oblige(o.st, "%s/after:%s:%s" % (self.cur_func, ast.unparse(stmt)[:40], aname),
+                                self.eval_spec(e, o.st, pre), "visible-state", stmt)
         return outs
 
     def _raise_outs(self, rs):
@@ -1202,6 +1238,12 @@ class SX:
 
     def assign(self, tgt, val, st, aug=False):
         if isinstance(tgt, ast.Name):
+            lt = getattr(self.unit, "local_types", None)
+            if lt and tgt.id in lt and isinstance(val, Ref) and isinstance(st.heap.get(val.cell), tuple):
+                # sidecar-declared type of a local that starts as an empty literal ([] / set() / {})
+                ty = lt[tgt.id]
+                st.heap[val.cell] = Val(ty, ty.empty())
+                val.ty = ty
             st.env[tgt.id] = val
             return [Out("normal", st)]
         if isinstance(tgt, (ast.Tuple, ast.List)):
@@ -1663,6 +1705,19 @@ class SX:
                         continue
                     so.st.env[idx] = k
                     head_ghost = dict(so.st.ghost)
+                    if spec.iter_post:
+                        # snapshot of the locals at the head of this iteration (head_<name> in iteration posts)
+                        for nm, vv in list(so.st.env.items()):
+                            if nm.startswith("__") or nm.startswith("head_"):
+                                continue
+                            dv = vv
+                            if isinstance(vv, Ref):
+                                cc = so.st.heap.get(vv.cell)
+                                if isinstance(cc, dict) or isinstance(cc, tuple):
+                                    continue
+                                dv = so.st.getcell(vv.cell)
+                            if isinstance(dv, Val) and not isinstance(dv, (Ref, Func, Conc)) and dv.ty is not None:
+                                head_ghost["__local_" + nm] = dv
                     for bo in self.ex_block(stmt.body, so.st):
                         if bo.kind in ("normal", "continue"):
                             k1 = Val(V.Int, k.term + 1)
